@@ -22,7 +22,7 @@ RULE = ("NS/getNS: every byte string of length <= 2 (65 793 values), lengths 255
         "2^k+1 for every k <= 4096, and pair/tail concatenations. Keys: a deterministic pool (RSA with p<q, p>q, e in "
         "{3|5|17, 65537}, modulus bit length = 0,1,7 mod 8; DSA with x=1, y with/without leading zero byte; ECDSA "
         "P-256/384/521 with private value 1, 2, 2^(bits-1)-3, first value whose x resp. y coordinate has a leading zero byte, the "
-        "keydata key; Ed25519 from 4 fixed seeds), public and private, x every format that supports the type (openssh "
+        "keydata key; Ed25519 from 4 fixed seeds and one whose public bytes end in a whitespace byte), public and private, x every format that supports the type (openssh "
         "public +- comment, openssh PEM, openssh v1 +- comment of every padding length, default subtype, lsh, agentv3, "
         "blob, private blob) x passphrase in {None, b'', bytes, unicode needing NFKC} x parse mode {guess, explicit type, "
         "str input}. Oracle: parsed == original (both directions), same isPublic, same MD5 and SHA256 fingerprints, and "
@@ -97,7 +97,7 @@ RSA_VARIANTS = ["kd-p<q-e17", "kd-p>q-e17", "kd-p<q-e65537", "n1023-p>q", "n1024
 DSA_VARIANTS = ["kd", "x1", "y-leading-zero", "y-high-bit"]
 EC_VARIANTS = ["kd", "v1", "v2", "big", "x-leading-zero", "y-leading-zero"]
 EC_CURVES = ["256", "384", "521"]
-ED_VARIANTS = ["kd", "zeros", "ff", "range"]
+ED_VARIANTS = ["kd", "zeros", "ff", "range", "a-ends-whitespace"]
 
 
 def key_ids():
@@ -192,8 +192,18 @@ def build_key(kind, variant):
         ref = {"x": pn.x, "y": pn.y, "privateValue": v, "curve": b"ecdsa-sha2-nistp" + bits.encode()}
         shape = "EC" + bits
     else:
-        seed = {"kd": keydata.Ed25519Data["k"], "zeros": b"\0" * 32, "ff": b"\xff" * 32,
-                "range": bytes(range(32))}[variant]
+        from cryptography.hazmat.primitives import serialization as _ser
+        if variant == "a-ends-whitespace":
+            # public bytes (hence blob, private blob) end with an ASCII whitespace byte, begin with a non-whitespace one
+            for i in range(1, 100000):
+                seed = i.to_bytes(32, "big")
+                a_ = ed25519.Ed25519PrivateKey.from_private_bytes(seed).public_key().public_bytes(
+                    _ser.Encoding.Raw, _ser.PublicFormat.Raw)
+                if a_[-1:] in b" \t\n\r\x0b\x0c":
+                    break
+        else:
+            seed = {"kd": keydata.Ed25519Data["k"], "zeros": b"\0" * 32, "ff": b"\xff" * 32,
+                    "range": bytes(range(32))}[variant]
         obj = ed25519.Ed25519PrivateKey.from_private_bytes(seed)
         from cryptography.hazmat.primitives import serialization
         a = obj.public_key().public_bytes(serialization.Encoding.Raw, serialization.PublicFormat.Raw)
